@@ -16,6 +16,7 @@ CONSTANTS
   PfMax = 1
   Eager = FALSE
   Journaling = FALSE
+  SlowStop = FALSE
 CHECK_DEADLOCK FALSE
 INVARIANTS
   NoPanic
